@@ -337,6 +337,133 @@ def adt_field(adt, v, i):
     return str(i)
 
 
+def rule_silent_error_nodes(ck, facts):
+    """the CST->AST lowering has no diagnostics channel: an error node it creates is silent"""
+    from ..rules import cover
+    R = "C04.silent-error"
+    SK = "mimium_lang::compiler::parser::green::SyntaxKind"
+    ck.rule(R, "the CST to AST lowering (which cannot report diagnostics) turns a syntax kind into Expr::Error only when a child the parser promises is missing (i.e. after a reported parse error): no arm for a regular syntax kind produces Expr::Error on every path, because such a kind is accepted by the parser without any error and then reaches type checking and code generation as an error node")
+    lang = facts.crate(roles.LANG)
+    n = 0
+    for f in lang.fns:
+        if "::parser::lower::" not in f.path or f.kind == "promoted" or "::test" in f.path:
+            continue
+        cov = cover.coverage(facts, f, SK)
+        if not cov or len(cov.primary_handled()) < 5:
+            continue
+        for v in sorted(cov.primary_handled()):
+            tb = cov.arm_target(v)
+            if tb is None or v in getattr(cov, "catchall", ()) or v == "Error":
+                continue
+            region = set(reachable(f, tb, stop=[cov.primary.block]))
+            errs = {b for b in region for st in f.stmts(b) if st[KIND] == "a" and st[5][0] == "agg" and st[5][1][0] == "adt" and st[5][1][1] == roles.EXPR and st[5][1][3] == "Error"}
+            if not errs:
+                continue
+            n += 1
+            # can the arm be left without passing an Expr::Error construction?
+            seen, todo, escapes = set(), [tb], False
+            while todo:
+                x = todo.pop()
+                if x in seen or x in errs or f.is_cleanup(x):
+                    continue
+                seen.add(x)
+                t = f.term(x)
+                if t[KIND] == "return" or x == cov.primary.block:
+                    escapes = True
+                    break
+                for y in f.succs(x):
+                    if y not in region:
+                        escapes = True
+                    todo.append(y)
+                if escapes:
+                    break
+            key = "arm|%s|%s" % (f.short.split("::")[-1], v)
+            if escapes:
+                ck.ok(R, key)
+            else:
+                ck.bad(R, key, "%s lowers every %s node to Expr::Error, and the lowering has no way to report a diagnostic: the parser accepts the construct where it is not part of a statement sequence (`if (c) x = 5.0 else x = 7.0`, `_ => x = x + 10.0`) and the compile entry points then either drop it silently or hand an error node to the back ends (panic `Instruction not implemented: Error` on the VM, an invalid module on WASM)" % (f.short, v), f.where())
+    ck.floor(R, "lowering_arms_with_error_nodes", n, 4)
+
+
+def rule_assignment_protocol(ck, facts):
+    """parser / lowering protocol for `target = value`: the parser emits it as two sibling nodes"""
+    import re
+    from ..rules import cover
+    R = "C04.assign-protocol"
+    SK = "mimium_lang::compiler::parser::green::SyntaxKind"
+    ck.rule(R, "`parse_expr()` may leave an assignment as two sibling nodes (target, AssignExpr) in the node being built; the lowering of every syntax kind whose children are parsed with `parse_expr()` therefore reads them through the sequence-aware lowering (`lower_expr_sequence` or a function that calls it), not child by child with `lower_expr` — otherwise the assignment is dropped or becomes a silent error node")
+    lang = facts.crate(roles.LANG)
+    P = [f for f in lang.fns if "::parser::cst_parser::" in f.path and f.kind != "promoted" and "::test" not in f.path]
+    pe = [f for f in P if f.short.endswith("Parser::<'a>::parse_expr")]
+    ck.require(R, len(pe) == 1, "anchor|parse_expr", "Parser::parse_expr not found")
+    if len(pe) != 1:
+        return
+    kinds = set()
+    for f in P:
+        if f.kind != "closure" or not any((callee(t) or "") == pe[0].path for _, t in f.calls()):
+            continue
+        for g in (h for h in P if h.root == f.root):
+            di = DefIndex(g)
+            for b, t in g.calls():
+                if "emit_node" not in (callee(t) or ""):
+                    continue
+                for a in t[5]:
+                    r = di.resolve(a) if a[0] in ("cp", "mv") else None
+                    if r and r[0] == "rv" and r[1][5][0] == "agg" and r[1][5][1][0] == "closure" and r[1][5][1][1] == f.path and len(t[5]) > 1 and t[5][1][0] in ("cp", "mv"):
+                        rk = di.resolve(t[5][1])
+                        if rk[0] == "rv" and rk[1][5][0] == "agg" and rk[1][5][1][0] == "adt" and rk[1][5][1][1] == SK:
+                            kinds.add(rk[1][5][1][3])
+    ck.floor(R, "kinds_with_parse_expr_children", len(kinds), 10)
+    L = [f for f in lang.fns if "::parser::lower::" in f.path and f.kind != "promoted" and "::test" not in f.path]
+    byname = {f.short.split("::")[-1]: f for f in L if f.kind in ("assoc", "fn")}
+    seq_fns = {f.path for f in L if f.short.split("::")[-1] in ("lower_expr_sequence",)}
+
+    def seq_aware(paths, depth=2):
+        seen = set()
+        work = [(p, 0) for p in paths]
+        while work:
+            p, d = work.pop()
+            if p in seen:
+                continue
+            seen.add(p)
+            if p in seq_fns:
+                return True
+            g = facts.fn(p)
+            if g is None or d >= depth or "::parser::lower::" not in p or p.endswith("::lower_expr"):
+                continue  # the dispatcher itself is not followed: it reaches everything
+            for _, t in g.calls():
+                work.append((callee(t) or "", d + 1))
+            for h in L:
+                if h.root == g.path and h.path != g.path:
+                    work.append((h.path, d))
+        return False
+
+    snake = lambda k: re.sub(r"(?<!^)(?=[A-Z])", "_", k).lower()
+    for k in sorted(kinds):
+        handlers = []
+        for f in L:
+            cov = cover.coverage(facts, f, SK)
+            if cov and k in cov.primary_handled() and k not in getattr(cov, "catchall", ()) and cov.arm_target(k) is not None and len(cov.primary_handled()) >= 5:
+                region = reachable(f, cov.arm_target(k), stop=[cov.primary.block])
+                handlers += [callee(f.term(b)) or "" for b in region if f.term(b)[KIND] == "call"]
+                # closures created in the arm
+                for b in region:
+                    for st in f.stmts(b):
+                        if st[KIND] == "a" and st[5][0] == "agg" and st[5][1][0] == "closure":
+                            handlers.append(st[5][1][1])
+        for nm in ("lower_" + snake(k), "lower_" + snake(k).replace("_expr", ""), "lower_" + snake(k).replace("_decl", "")):
+            if nm in byname:
+                handlers.append(byname[nm].path)
+        key = "kind|%s" % k
+        if not handlers:
+            ck.note("no lowering handler located for %s" % k)
+            continue
+        if seq_aware(handlers):
+            ck.ok(R, key)
+        else:
+            ck.bad(R, key, "the children of a %s node are parsed with parse_expr(), which can leave `target = value` as two siblings, but the lowering of %s reads its children one by one: an assignment in that position is dropped without a diagnostic (or lowered to an error node)" % (k, k), None)
+
+
 def run(ck, facts, tier):
     pm = ParserModel(facts)
     ck.floor("C04.anchor", "cst_parser_bodies", len(pm.fns), 120)
@@ -350,6 +477,8 @@ def run(ck, facts, tier):
     belief.run(ck, R, facts, cg, roots, "front-end")
     rule_errors_as_values(ck, facts, cg)
     rule_occurs(ck, facts)
+    rule_silent_error_nodes(ck, facts)
+    rule_assignment_protocol(ck, facts)
     chainwalk.run(ck, facts, "C04.chain-walk", ["mimium_lang"])
     from . import c03
 
